@@ -339,3 +339,152 @@ fn record_fl<F: Fl>(opts: &HashMap<String, String>) -> Value {
     json!({"flavour": F::NAME, "events": events, "graphs": graphs, "shapes": shapes,
            "lock_points_seen": guard::LOCK_POINTS.load(std::sync::atomic::Ordering::Relaxed)})
 }
+
+// ---------------------------------------------------------------------------
+// C11: Graph::scc()
+
+/// build the graph `st` and put its nodes into a FRESH container (own hash
+/// state) in the given insertion order
+fn scc_instance<F: Fl>(st: &AState, order: &[K]) -> Result<Value, String> {
+    let w = match guarded(|| World::<F>::build(st, None)) {
+        Guarded::Ok(Ok(w)) => w,
+        o => return Err(format!("build: {:?}", o.failure())),
+    };
+    let mut g = F::g_new();
+    for &k in order {
+        F::g_insert(&mut g, w.node(k).clone());
+    }
+    match guarded(|| F::g_scc(&g)) {
+        Guarded::Ok(Some(c)) => Ok(json!(c)),
+        Guarded::Ok(None) => Err("scc not available on this flavour".into()),
+        o => Err(o.failure().unwrap()),
+    }
+}
+
+fn normalise(c: &Value) -> Vec<Vec<K>> {
+    let mut v: Vec<Vec<K>> = serde_json::from_value(c.clone()).unwrap_or_default();
+    for x in v.iter_mut() {
+        x.sort();
+    }
+    v.sort();
+    v
+}
+
+pub fn replay_scc(opts: &HashMap<String, String>) -> Value {
+    let fl = opts.get("flavour").expect("--flavour").clone();
+    with_flavour!(fl.as_str(), replay_scc_fl(opts))
+}
+
+fn replay_scc_fl<F: Fl>(opts: &HashMap<String, String>) -> Value {
+    let cases = opts.get("cases").expect("--cases");
+    let instances: usize = opts.get("instances").map(|s| s.parse().unwrap()).unwrap_or(4);
+    let seed: u64 = opts.get("seed").map(|s| s.parse().unwrap()).unwrap_or(1);
+    let max_viol: usize = opts.get("max-violations").map(|s| s.parse().unwrap()).unwrap_or(300);
+    let mut rng = StdRng::seed_from_u64(seed);
+    let (mut n_cases, mut n_exec, mut agree, mut n_mismatch) = (0usize, 0usize, 0usize, 0usize);
+    let mut mismatches = vec![];
+    let mut samples = vec![];
+    let mut nontrivial: HashSet<u64> = HashSet::new();
+    let mut distinct_results: HashMap<String, HashSet<String>> = HashMap::new();
+    use std::hash::{Hash, Hasher};
+    tlcio::for_each_case(cases, |case| {
+        n_cases += 1;
+        let st = AState { out: lists(&case["out"]), inn: lists(&case["inn"]) };
+        let expected = normalise(&case["sccs"]);
+        let n = st.n();
+        for inst in 0..instances {
+            let mut order: Vec<K> = (1..=n as K).collect();
+            // rotate / shuffle the insertion order; every instance is a fresh hash map
+            order.rotate_left(inst % n);
+            if inst >= n {
+                for i in (1..order.len()).rev() {
+                    order.swap(i, rng.gen_range(0..=i));
+                }
+            }
+            n_exec += 1;
+            let obs = scc_instance::<F>(&st, &order);
+            if st.edges() > 0 {
+                let mut h = std::collections::hash_map::DefaultHasher::new();
+                st.hash(&mut h);
+                order.hash(&mut h);
+                nontrivial.insert(h.finish());
+            }
+            let ok = match &obs {
+                Ok(c) => {
+                    distinct_results.entry(format!("{:?}", st)).or_default().insert(c.to_string());
+                    let flat: usize = c.as_array().map(|a| a.iter().map(|x| x.as_array().map(|y| y.len()).unwrap_or(0)).sum()).unwrap_or(0);
+                    normalise(c) == expected && flat == n
+                }
+                Err(_) => false,
+            };
+            if ok {
+                agree += 1;
+                if samples.len() < 5 && st.edges() >= 3 && expected.len() < n && n_exec % 37 == 0 {
+                    samples.push(json!({"flavour": F::NAME, "out": st.out, "insertion_order": order, "scc": obs.as_ref().ok()}));
+                }
+            } else {
+                n_mismatch += 1;
+                if mismatches.len() < max_viol {
+                    mismatches.push(json!({"flavour": F::NAME, "out": st.out, "inn": st.inn, "insertion_order": order,
+                        "comps": obs.as_ref().ok(), "error": obs.as_ref().err(), "rt": if obs.is_ok() { "comps" } else { "fail" },
+                        "expected": expected}));
+                }
+            }
+        }
+    })
+    .expect("read cases");
+    let order_dependent = distinct_results.values().filter(|s| s.len() > 1).count();
+    json!({"flavour": F::NAME, "cases": n_cases, "executions": n_exec, "agree": agree, "n_mismatch": n_mismatch,
+           "mismatches": mismatches, "samples": samples, "distinct_nontrivial": nontrivial.len(),
+           "graphs_with_several_distinct_result_orders": order_dependent})
+}
+
+/// random directed graphs up to --nodes nodes: graph event + one scc event per container instance
+pub fn record_scc(opts: &HashMap<String, String>) -> Value {
+    let fl = opts.get("flavour").expect("--flavour").clone();
+    with_flavour!(fl.as_str(), record_scc_fl(opts))
+}
+
+fn record_scc_fl<F: Fl>(opts: &HashMap<String, String>) -> Value {
+    let seed: u64 = opts.get("seed").map(|s| s.parse().unwrap()).unwrap_or(1);
+    let graphs: usize = opts.get("graphs").map(|s| s.parse().unwrap()).unwrap_or(20);
+    let maxn: usize = opts.get("nodes").map(|s| s.parse().unwrap()).unwrap_or(12);
+    let pad: usize = opts.get("pad").map(|s| s.parse().unwrap()).unwrap_or(maxn);
+    let instances: usize = opts.get("instances").map(|s| s.parse().unwrap()).unwrap_or(3);
+    let path = opts.get("trace").expect("--trace");
+    let mut f = std::io::BufWriter::new(std::fs::File::create(path).expect("create trace"));
+    let mut rng = StdRng::seed_from_u64(seed ^ 0xabcdef);
+    let mut events = 0;
+    for gi in 0..graphs {
+        let n = rng.gen_range(3..=maxn);
+        // mixtures of nested cycles, DAG parts, self-loops, isolated nodes
+        let ne = match gi % 4 { 0 => n, 1 => n + n / 2, 2 => 2 * n, _ => n / 2 + 1 };
+        let mut st = AState::empty(n);
+        for _ in 0..ne {
+            let u = rng.gen_range(1..=n as K);
+            let v = if rng.gen_bool(0.1) { u } else { rng.gen_range(1..=n as K) };
+            st.out[(u - 1) as usize].push((v, 1));
+            st.inn[(v - 1) as usize].push((u, 1));
+        }
+        let mut o = st.out.clone();
+        let mut i = st.inn.clone();
+        o.resize(pad, vec![]);
+        i.resize(pad, vec![]);
+        writeln!(f, "{}", json!({"ev": "graph", "out": o, "inn": i, "nval": vec![0; pad], "n": n})).unwrap();
+        events += 1;
+        for _ in 0..instances {
+            let mut order: Vec<K> = (1..=n as K).collect();
+            for i in (1..order.len()).rev() {
+                order.swap(i, rng.gen_range(0..=i));
+            }
+            let ev = match scc_instance::<F>(&st, &order) {
+                Ok(c) => json!({"ev": "scc", "rt": "comps", "comps": c, "insertion_order": order}),
+                Err(e) => json!({"ev": "scc", "rt": "fail", "comps": [], "error": e, "insertion_order": order}),
+            };
+            writeln!(f, "{}", ev).unwrap();
+            events += 1;
+        }
+    }
+    f.flush().unwrap();
+    json!({"flavour": F::NAME, "events": events, "graphs": graphs})
+}
